@@ -76,6 +76,18 @@ theorem every_internal_run_settles (qcap : Nat) (hq : 0 < qcap) (b64 : List Nat 
       exact absurd (show next (srcParams qcap b64) s' .consume = some (.ok { s' with queue := q, delivered := s'.delivered ++ [ev] }) by
         simp [next, hqe]) (hmax .consume rfl _)
 
+/-- **Requesters can neither starve nor prolong the input goroutine.**  A requester label (any call,
+receive, time-out or cancellation of `CursorPosition`, `reportWinsize`, the colour queries,
+`ClipboardPop`) changes neither the pending effects nor the event queue; hence in ANY schedule
+without further terminal input — internal moves and requester activity interleaved in any way — at
+most `work s` moves are internal.  Together with `never_stuck` (an internal move is enabled in every
+reachable state with effects pending, and reachability is closed under requester labels): under
+every schedule of requesters, the goroutine is back at its `select` after at most `work s` of its
+own moves and the application's receives. -/
+theorem requesters_do_not_add_work (p : Params) (ls : List Label) (s s' : Sys) (hni : ∀ l ∈ ls, ∀ q, l ≠ .input q)
+    (hr : run p s ls = some s') : (ls.filter (·.internal)).length + work s' ≤ work s :=
+  schedule_bounded p ls s s' hni hr
+
 /-- **The loop reaches the end of every stream.**  From every state reachable by any labels — any
 earlier input, any requester activity, any time-outs — and for every further stream of sequences
 the parser can deliver, there is a schedule consisting of exactly those sequences, in order, and
